@@ -368,8 +368,20 @@ def run(ctx):
     # torch flows seed the global torch RNG from their seed argument
     try:
         btf = repo.cls("aspire.flows.torch.flows:BaseTorchFlow").methods["__init__"]
-        sd = any(isinstance(n, ast.Call) and (dotted(n.func) or "").endswith("manual_seed") and n.args and isinstance(n.args[0], ast.Name) and n.args[0].id == "seed" for n in walk_no_nested(btf.node))
-        ctx.decide(sd, "C20.seed", btf.ident, loc_of(btf), "the torch flow seeds torch's generator from its seed argument", "the torch flow does not seed torch from its seed argument")
+        from .common import flat_conds
+        evs_ = _Ev(repo, max_depth=0)
+        evs_.run(btf, btf.cls)
+        seeds = [e for e in evs_.events if e.func is btf and e.callee.endswith("manual_seed") and e.args and e.args[-1] == T.atom("seed")]
+        sd = len(seeds) == 1
+        why_s = "the torch flow does not seed torch from its seed argument"
+        if sd:
+            fc = flat_conds(seeds[0].conds)
+            # every seed value must take effect: the only acceptable guard is `seed is not None`
+            sd = fc <= {(("is", T.atom("seed"), T.NONE), False)}
+            if not sd:
+                why_s = ("torch is seeded only when " + " and ".join(("" if pol else "not ") + T.show(c)[:40] for c, pol in sorted(fc, key=repr))
+                         + ": a seed for which that is false (e.g. seed=0 under a truthiness test) is silently ignored and the flow is initialised from the global state")
+        ctx.decide(sd, "C20.seed", btf.ident, loc_of(btf), "the torch flow seeds torch's generator from its seed argument, for every seed value", why_s)
     except (AnalysisError, KeyError):
         pass
 
@@ -435,6 +447,7 @@ MUTANTS = [
       more=[("parameters=parameters,\n            rng=rng,\n            preconditioning_transform=preconditioning_transform,", "parameters=parameters,\n            preconditioning_transform=preconditioning_transform,")]),
     M("emcee SMC consumes the caller's dictionary", _E, "self.sampler_kwargs = dict(sampler_kwargs or {})", "self.sampler_kwargs = sampler_kwargs or {}", "C20.alias"),
     M("flow key parameter ignored", _JF, "self.key = key\n        self.loc = None", "self.key = jrandom.key(0)\n        self.loc = None", "C20.used"),
+    M("torch flow ignores seed 0", "src/aspire/flows/torch/flows.py", "torch.manual_seed(seed)", "if seed:\n            torch.manual_seed(seed)", "C20.seed"),
     M("torch flow not seeded", "src/aspire/flows/torch/flows.py", "torch.manual_seed(seed)", "pass", ("C20.seed", "C20.used")),
     M("routing sends everything to sample()", "src/aspire/aspire.py", "if k in sampler_init_kwargs and k != \"self\"\n        }", "if False\n        }", "C20.route"),
 ]
@@ -442,6 +455,7 @@ MUTANTS += [
     M("torch rejection sampling from the global generator", _S, "log_u = asarray(\n            np.log(rng.uniform(size=len(self.x))), self.xp, device=self.device\n        )", "log_u = self.xp.log(self.xp.rand(len(self.x)))", ("C20.fresh", "C20.used")),
 ]
 NEUTRALS = [
+    M("torch flow seeded unless seed is None", "src/aspire/flows/torch/flows.py", "torch.manual_seed(seed)", "if seed is not None:\n            torch.manual_seed(seed)"),
     M("fallback written as a conditional expression", _B, "self.rng = rng or np.random.default_rng()\n        self._adapative_target_efficiency = False", "self.rng = rng if rng is not None else np.random.default_rng()\n        self._adapative_target_efficiency = False"),
     M("fallback written as an if", _B, "self.rng = rng or np.random.default_rng()\n        self._adapative_target_efficiency = False", "if rng is None:\n            rng = np.random.default_rng()\n        self.rng = rng\n        self._adapative_target_efficiency = False"),
     M("copy via dict unpacking call", _E, "self.sampler_kwargs = dict(sampler_kwargs or {})", "self.sampler_kwargs = copy.deepcopy(sampler_kwargs or {})"),
